@@ -74,6 +74,18 @@ def static_pool(rng):
 def lim(v):
     return "max" if v is None else str(v)
 
+# ---------------------------------------------------------------- stream: constructors (C08: every way to set a capacity / limit)
+CTORS = ["new", "default", "with_capacity", "with_limits", "with_capacity_and_limits", "with_hasher", "with_capacity_and_hasher",
+         "full", "cap_for_strings", "cap_for_bytes", "cap_minimal", "lim_for_memory_usage"]
+
+def constructors(rng):
+    n = 0
+    for t in ("r", "t"):
+        for c in CTORS:
+            for cap, limv in ((1, None), (7, 7), (64, 100), (4096, 5000), (10000, 3)):
+                yield case(f"ct{n}", cfg(H=HASHERS[n % 5]), [f"CT {t} {c} {cap} {lim(limv)} {n % 9}"])
+                n += 1
+
 # ---------------------------------------------------------------- stream: arena small scope (C04 C08 C01 C13)
 def arena_small(tier, rng):
     caps = [1, 2, 3] if tier == "quick" else [1, 2, 3, 4]
